@@ -57,6 +57,13 @@ func Bin() string { return os.Getenv("VERIF_GTS_BIN") }
 // scratch directory and read back.  Files maps argument placeholders (e.g.
 // "@GUEST1") to absolute paths.
 func Run(args []string, stdin []byte, state State) (Result, State) {
+	return RunWithFiles(args, stdin, state, nil)
+}
+
+// RunWithFiles additionally writes files (relative name -> content) into the
+// working directory of the run, so that an argument can name the same relative
+// path with different contents in different runs.
+func RunWithFiles(args []string, stdin []byte, state State, files map[string][]byte) (Result, State) {
 	scratch, err := os.MkdirTemp("", "verif-cli-")
 	if err != nil {
 		panic(err)
@@ -85,6 +92,9 @@ func Run(args []string, stdin []byte, state State) (Result, State) {
 		default:
 			real[i] = a
 		}
+	}
+	for n, b := range files {
+		os.WriteFile(filepath.Join(scratch, n), b, 0o644)
 	}
 	inPath := filepath.Join(scratch, "stdin")
 	os.WriteFile(inPath, stdin, 0o644)
